@@ -12,6 +12,7 @@ mod crash;
 mod c12;
 mod c13;
 mod c16;
+mod c18;
 mod c16s;
 mod locks;
 mod probe;
@@ -97,6 +98,8 @@ fn main() {
         ("probe", "repair-then-commit") => probe::repair_then_commit(),
         ("locks", "gen") => locks::gen(&args),
         ("locks", "exec") => locks::exec(&args),
+        ("c18", "gen") => c18::gen(&args),
+        ("c18", "exec") => c18::exec(&args),
         ("c19", "gen") => c19::gen(&args),
         ("c19", "exec") => c19::exec(&args),
         ("c19", "child") => c19::child(&args),
